@@ -172,7 +172,8 @@ CHECKS = {
         "text": "Theorems C09_* (coq/Props/C09.v) on the real-number model of the spaces, for ALL inputs: non-negativity, d(a,a)=0, symmetry, "
                 "triangle inequality for R^n (Minkowski), SO(2) (|wrap(a-b)| = acos cos, acos-triangle lemma), SO(3) (Gram / Cauchy-Schwarz "
                 "on unit quaternions) and weighted-l2 compounds; invariance under +2k pi and q -> -q; d <= pi on SO(2)/SO(3); zero distance "
-                "iff same configuration. The implementation is tied to the executable float model bit-for-bit on an exhaustive special-value "
+                "iff same configuration. Float level, bit-exact (C09_float_*): d(x,y) and d(y,x) are the same double on R^n, on SO(3) for any acos "
+                "oracle, and on every compound tree over such leaves (any width / nesting, SE(3) included). The implementation is tied to the executable float model bit-for-bit on an exhaustive special-value "
                 "lattice + random states (all dimensions / weights / layouts, malformed stream separate) and checked against an independent "
                 "60-digit evaluation of the real model within the stated tolerances; metric axioms evaluated on all generated triples.",
         "design_ref": "DESIGN.md section 7 C09, section 3.3",
